@@ -55,17 +55,21 @@ structure TInv (W : Colls) (seen : List (Req × Forest)) (cls : Str → Str) (s 
   sat : ∀ p, p ∈ seen → ∃ F, ImpForest s (cls p.1.1) F ∧ sub (.instance F) (.instance p.2) = true
   glb : ∀ n F, ImpForest s n F → ∀ X, X.namesDistinct = true →
     (∀ p, p ∈ seen → cls p.1.1 = n → sub X (.instance p.2) = true) → sub X (.instance F) = true
+  wit : ∀ n F, ImpForest s n F → ∀ k t, F.get k = some t → ∃ p, p ∈ seen ∧ cls p.1.1 = n ∧ p.2.get k = some t
 
 theorem TInv.congr {W : Colls} {seen : List (Req × Forest)} {cls cls' : Str → Str} {s : AggState}
     (h : TInv W seen cls s) (hc : ∀ p, p ∈ seen → cls' p.1.1 = cls p.1.1) : TInv W seen cls' s :=
   ⟨h.ainv, h.imp, h.inj, h.keys, h.flat, fun p hp => by rw [hc p hp]; exact h.sat p hp,
-    fun n F hF X hX hall => h.glb n F hF X hX (fun p hp hn => hall p hp (by rw [hc p hp]; exact hn))⟩
+    fun n F hF X hX hall => h.glb n F hF X hX (fun p hp hn => hall p hp (by rw [hc p hp]; exact hn)),
+    fun n F hF k t hk => by
+      obtain ⟨p, hp, h1, h2⟩ := h.wit n F hF k t hk
+      exact ⟨p, hp, by rw [hc p hp]; exact h1, h2⟩⟩
 
 /-- changing only the redirects does not touch the type-level invariant -/
 theorem TInv.set_redirects {W : Colls} {seen : List (Req × Forest)} {cls : Str → Str} {s : AggState}
     (h : TInv W seen cls s) (R : List (Str × Str)) :
     TInv W seen cls { s with agg := { s.agg with redirects := R } } :=
-  ⟨⟨⟨h.ainv.rinv.sound, h.ainv.rinv.closed, h.ainv.rinv.shape⟩, h.ainv.cinv, h.ainv.nores⟩, h.imp, h.inj, h.keys, h.flat, h.sat, h.glb⟩
+  ⟨⟨⟨h.ainv.rinv.sound, h.ainv.rinv.closed, h.ainv.rinv.shape⟩, h.ainv.cinv, h.ainv.nores⟩, h.imp, h.inj, h.keys, h.flat, h.sat, h.glb, h.wit⟩
 
 theorem sub_instance_refl (F : Forest) (h : F.namesDistinct = true) : sub (.instance F) (.instance F) = true :=
   sub_refl _ (by simpa [Tree.namesDistinct] using h)
@@ -105,7 +109,7 @@ theorem TInv.merge (hT : TInv W seen cls s) {r : Req} {G : Forest} (hr : FlatReq
     obtain ⟨F0, h0⟩ := hT.imp n _ g1
     rw [(keep n F0 hne h0).det h1] at h0; exact h0
   have hkF : keysNd F = true := keysNd_of_nd F hFnd
-  refine ⟨⟨hTS1.ainv, ?_, ?_, ?_, ?_, ?_, ?_⟩, hm.imports, hm.redirects⟩
+  refine ⟨⟨hTS1.ainv, ?_, ?_, ?_, ?_, ?_, ?_, ?_⟩, hm.imports, hm.redirects⟩
   · intro n k hn
     rw [hm.imports] at hn
     by_cases hne : n = en
@@ -148,6 +152,22 @@ theorem TInv.merge (hT : TInv W seen cls s) {r : Req} {G : Forest} (hr : FlatReq
         (fun p hp hn => hall p (List.mem_cons_of_mem _ hp) (by rw [hc2 p hp]; exact hn))
     · exact hT.glb n F' (back n F' hne hF') X hX
         (fun p hp hn => hall p (List.mem_cons_of_mem _ hp) (by rw [hc2 p hp]; exact hn))
+  · intro n F' hF' k t hk
+    by_cases hne : n = en
+    · subst hne
+      rw [hF'.det himp1, get_appendMissing] at hk
+      cases hfk : F.get k with
+      | some tf =>
+        rw [hfk] at hk
+        simp only [Option.orElse_some, Option.some.injEq] at hk
+        subst hk
+        obtain ⟨p, hp, h1, h2⟩ := hT.wit n F ⟨e, ti, hget, hti, hflat, hFnd⟩ k tf hfk
+        exact ⟨p, List.mem_cons_of_mem _ hp, by rw [hc2 p hp]; exact h1, h2⟩
+      | none =>
+        rw [hfk] at hk
+        exact ⟨(r, G), List.mem_cons_self, hc1, by simpa using hk⟩
+    · obtain ⟨p, hp, h1, h2⟩ := hT.wit n F' (back n F' hne hF') k t hk
+      exact ⟨p, List.mem_cons_of_mem _ hp, by rw [hc2 p hp]; exact h1, h2⟩
 
 end merge
 
@@ -202,7 +222,7 @@ theorem TInv.fresh (hT : TInv W seen cls s) {r : Req} {G : Forest} (hr : FlatReq
     obtain ⟨F0, h0⟩ := hT.imp n _ g1
     rw [(keep n F0 h0).2.det h1] at h0; exact h0
   refine ⟨⟨⟨⟨hfs.rinv.sound, hfs.rinv.closed, hfs.rinv.shape⟩, by rw [show (addImport s1 r.1 _).chk = s.chk from hfs.chk]; exact hT.ainv.cinv.ext hfs.ext,
-      hfs.ext.resources.trans hT.ainv.nores⟩, ?_, ?_, ?_, ?_, ?_, ?_⟩, hfs.imports, hfs.redirects⟩
+      hfs.ext.resources.trans hT.ainv.nores⟩, ?_, ?_, ?_, ?_, ?_, ?_, ?_⟩, hfs.imports, hfs.redirects⟩
   · intro n k hn
     rw [hgi] at hn
     by_cases hne : r.1 = n
@@ -258,6 +278,13 @@ theorem TInv.fresh (hT : TInv W seen cls s) {r : Req} {G : Forest} (hr : FlatReq
       exact hall (r, G) List.mem_cons_self hc1
     · exact hT.glb n F' (back n F' hne hF') X hX
         (fun p hp hn => hall p (List.mem_cons_of_mem _ hp) (by rw [hc2 p hp]; exact hn))
+  · intro n F' hF' k t hk
+    by_cases hne : n = r.1
+    · subst hne
+      rw [hF'.det himp1] at hk
+      exact ⟨(r, G), List.mem_cons_self, hc1, hk⟩
+    · obtain ⟨p, hp, h1, h2⟩ := hT.wit n F' (back n F' hne hF') k t hk
+      exact ⟨p, List.mem_cons_of_mem _ hp, by rw [hc2 p hp]; exact h1, h2⟩
 
 end fresh
 
@@ -308,7 +335,7 @@ theorem TInv.rename (hT : TInv W seen cls s) {name exName : Str} {m : ItemKind}
       · have a2' : (exName == n) = false := by simpa using a2
         rw [a2'] at h1
         exact .inr ⟨fun e' => a1 e'.symm, fun e' => a2 e'.symm, e, ti, by simpa using h1, h2, h3, h4⟩
-  refine ⟨⟨⟨hT.ainv.rinv.sound, hT.ainv.rinv.closed, hT.ainv.rinv.shape⟩, hT.ainv.cinv, hT.ainv.nores⟩, ?_, ?_, hT.keys, hT.flat, ?_, ?_⟩
+  refine ⟨⟨⟨hT.ainv.rinv.sound, hT.ainv.rinv.closed, hT.ainv.rinv.shape⟩, hT.ainv.cinv, hT.ainv.nores⟩, ?_, ?_, hT.keys, hT.flat, ?_, ?_, ?_⟩
   · intro n k hn
     rw [hgi] at hn
     by_cases a1 : name = n
@@ -364,6 +391,12 @@ theorem TInv.rename (hT : TInv W seen cls s) {name exName : Str} {m : ItemKind}
       rw [hc p hp, hn]; simp
     · refine hT.glb n F hF0 X hX (fun p hp hn => hall p hp ?_)
       rw [hc p hp, hn]; simp [a2]
+  · intro n F hF k t hk
+    rcases bwd n F hF with ⟨rfl, hF0⟩ | ⟨a1, a2, hF0⟩
+    · obtain ⟨p, hp, h1, h2⟩ := hT.wit exName F hF0 k t hk
+      exact ⟨p, hp, by rw [hc p hp, h1]; simp, h2⟩
+    · obtain ⟨p, hp, h1, h2⟩ := hT.wit n F hF0 k t hk
+      exact ⟨p, hp, by rw [hc p hp, h1]; simp [a2], h2⟩
 
 end rename
 
